@@ -36,7 +36,7 @@ Step ==
      /\ IF j = 0 THEN fails' = fails
         ELSE LET live == {c \in Cols : ~cfg.zero[c]}
                  f1 == Add(fails, \A c \in live : CL_Mono(prevErr[c], st.err[c], prevRes[c], cfg.lgfloor), "error-increases@" \o ToString(j))
-                 f2 == Add(f1, \A c \in live : CL_Bound(st.err[c], j, cfg.lgrho, st.res[c], cfg.lgfloor), "classical-bound@" \o ToString(j))
+                 f2 == Add(f1, \A c \in live : CL_Bound(st.err[c], st.it, cfg.lgrho, st.res[c], cfg.lgfloor), "classical-bound@" \o ToString(j))   \* st.it: iterations actually performed with budget j
                  f3 == Add(f2, \A c \in frozen : ~st.changed[c], "converged-column-changes@" \o ToString(j))
                  f4 == Add(f3, CL_NoWarn(st.warned, st.meanres, cfg.lgtol), "no-warning-above-tolerance@" \o ToString(j))
                  f5 == Add(f4, \A c \in Cols : cfg.zero[c] => ~st.changed[c], "zero-column-changes@" \o ToString(j))
@@ -59,7 +59,10 @@ Finish ==
          f1 == Add(f0, tchk => fin.tsym, "T-not-symmetric-tridiagonal")
          f2 == Add(f1, tchk => fin.ritz, "ritz-values-outside-spectrum")
          f3 == Add(f2, tchk => (fin.tside >= 1 /\ fin.tside <= Min2(cfg.max_tri, cfg.n)), "T-size")
-         f4 == Add(f3, (tchk /\ fin.quad # NA) => fin.quad <= QuadThr, "quadrature-identity")
+         \* the tolerance exit never cuts the tridiagonalisation short of its budget: rows 0 .. min(max_tri, n, max_iter - 1) - 1 are
+         \* always written (LOCG: CG_ExitOk), unless Lanczos itself broke down there (fin.breakdown, from the independent recurrence)
+         f3b == Add(f3, (tchk /\ fin.budget_applies) => fin.tside >= Min2(Min2(cfg.max_tri, cfg.n), cfg.max_iter - 1), "tridiagonalisation-cut-short-of-its-budget")
+         f4 == Add(f3b, (tchk /\ fin.quad # NA) => fin.quad <= QuadThr, "quadrature-identity")
          f5 == Add(f4, (tchk /\ fin.lanczos # NA) => fin.lanczos <= LanThr, "T-is-not-the-lanczos-matrix")
          f6 == Add(f5, fin.raised \/ fin.zero_ok, "zero-rhs-column-not-zero")
          f7 == Add(f6, fin.scale # NA => fin.scale <= LimitThr, "not-linear-in-rhs")
